@@ -248,6 +248,12 @@ def coq_step(step, obs, ids, stdlib):
         return "Ask (QAgree %s %s %s)" % (
             L.cpath(step["path"]), L.clist([L.cfdef(d) for d in obs["available"]]),
             L.clist(["(%s, %s, %s)" % (L.cstr(x["name"]), L.coptdef(x["closest"]), L.coptdef(x["rff"])) for x in obs["names"]]))
+    if k in ("cycles", "cycles_in_file"):
+        cs = L.clist(["(mk_cycle %s %s)" % (L.clist([L.cstr(x) for x in c["path"]]), L.cfdef(c["fixture"])) for c in obs])
+        return "Ask (QCycles %s)" % cs if k == "cycles" else "Ask (QCyclesInFile %s %s)" % (L.cpath(step["path"]), cs)
+    if k == "mismatches":
+        return "Ask (QMismatches %s %s)" % (L.cpath(step["path"]), L.clist(
+            ["(mk_mismatch %s %s)" % (L.cfdef(m["fixture"]), L.cfdef(m["dependency"])) for m in obs]))
     if k == "dump":
         return "Ask (QDump %s)" % L.cdump(obs, ids)
     raise ValueError(k)
